@@ -90,6 +90,15 @@ def configs(bits, presence):
                     if tlen < 0:
                         continue
                     m["timestamps"] = [f"2024-01-01T{h:02d}:00" for h in range(tlen)]
+                    kind_ = (n + len(vlabel) + tlen) % 5   # labels are labels: any strings / numbers, in any order, repeated or not
+                    if kind_ == 1:
+                        m["timestamps"] = [f"{9 + h}:30" for h in range(tlen)]              # "9:30", "10:30": not in string order
+                    elif kind_ == 2:
+                        m["timestamps"] = [["23:30", "00:00", "00:30", "01:00", "01:30"][h % 5] for h in range(tlen)]   # across midnight
+                    elif kind_ == 3:
+                        m["timestamps"] = [f"day{h // 2}" for h in range(tlen)]             # repeated labels
+                    elif kind_ == 4:
+                        m["timestamps"] = [f"DOY {100 - h}" for h in range(tlen)]           # descending
                 yield (f"n={n},{vlabel},ts={tlabel}", m)
 
 
